@@ -254,11 +254,9 @@ def _stuck_msg(text):
     goroutine that is not parked in an accepted wait)"""
     if "read:chan_send" in text or ("chan_send" in text and "readLoop" in text):
         return F37_MSG
-    if "serve:sync.Mutex.Lock" in text and "setError" not in text:
-        return ("serve() is parked on a mutex that is never released (registerClient / unregisterClient wait for server.mu: a lock "
-                "taken on behalf of an earlier request was not given back)")
     if "sync.Mutex.Lock" in text:
-        return F47_MSG
+        return F47_MSG + (" — or, when it is serve() that waits: server.mu taken on behalf of an earlier request was never given back"
+                          if "serve:sync.Mutex.Lock" in text else "")
     if "serve:chan_send" in text or ("chan_send" in text and ("connectWithTimeOut" in text or "sendErrConnack" in text)):
         return F48_MSG
     return "a broker goroutine is parked where nothing will wake it"
